@@ -129,6 +129,13 @@ extern void (* simk_on_poll)(struct pollfd *, nfds_t, int, int, uint64_t, uint64
 	/* observer: (fds, n, timeout, rc, now_before, now_after), after revents set */
 extern void (* simk_on_poll_entry)(struct pollfd *, nfds_t, int);
 extern void (* simk_on_deadlock)(void);	/* poll(-1) with nothing that can ever happen */
+/*
+ * If non-zero: after this many consecutive polls during which virtual time has
+ * not advanced, simk_on_busy() is called (the library is spinning inside its
+ * loop on a descriptor that stays ready without making progress).
+ */
+extern uint64_t simk_busy_limit;
+extern void (* simk_on_busy)(void);
 extern void (* simk_on_world_change)(int fd, const char * what, long val);
 extern uint64_t simk_poll_oversleep_us;	/* max extra sleep added to timeouts */
 
